@@ -68,7 +68,7 @@ simulation* g_sim; asio::io_context *g_cios, *g_sios;
 tcp::acceptor* g_acc; tcp::socket *g_cli, *g_srv, *g_peer_accepted; udp::socket *g_usock, *g_upeer;
 asio::high_resolution_timer *g_timer, *g_aux_timer; tcp::resolver* g_res;
 int g_kind, g_intervention, g_when;
-int g_bystander_accept = -1;   // result of the acceptor's accept in the connect scenarios (-1: still pending)
+int g_bystander_accept = -1, g_bystander_accept2 = -1; tcp::socket* g_srv2 = nullptr;   // result of the acceptor's accept in the connect scenarios (-1: still pending)
 unsigned char g_buf[16]; udp::endpoint g_from; tcp::endpoint g_peer_ep;
 static unsigned char const g_data[8] = {1, 2, 3, 4, 5, 6, 7, 8};
 
@@ -208,7 +208,16 @@ extern "C" int harness_main()
 				g_cli->async_write_some(asio::buffer(g_data, 4), [](error_code const&, std::size_t) {});
 			}
 		}
-		if (g_kind == K_CONNECT) g_acc->async_accept(*g_srv, [](error_code const& e) { g_bystander_accept = ecv(e); });
+		if (g_kind == K_CONNECT)
+		{
+			// the server runs an accept loop: as soon as one accept completes the next one is posted
+			g_srv2 = new tcp::socket(sios);
+			g_acc->async_accept(*g_srv, [](error_code const& e)
+			{
+				g_bystander_accept = ecv(e);
+				if (!e && g_acc) g_acc->async_accept(*g_srv2, [](error_code const& e2) { g_bystander_accept2 = ecv(e2); });
+			});
+		}
 		if (g_kind == K_UWAITW)
 		{
 			// make the socket unwritable: a tiny send buffer and a burst of datagrams to nowhere in particular
@@ -278,12 +287,16 @@ extern "C" int harness_main()
 		}
 		// every other object keeps behaving: whatever happens to the connecting socket, the acceptor's pending accept
 		// either completes with that connection or stays pending - it is never aborted
-		if (!threw && g_kind == K_CONNECT) vp_assert((g_bystander_accept == -1) | (g_bystander_accept == 0), 17);
+		if (!threw && g_kind == K_CONNECT)
+		{
+			vp_assert((g_bystander_accept == -1) | (g_bystander_accept == 0), 17);
+			vp_assert((g_bystander_accept2 == -1) | (g_bystander_accept2 == 0), 18);
+		}
 		// ---- tear everything down: whatever is still outstanding is aborted exactly once; ... and the simulation
 		// is safe to destroy (also after a throw)
 		g_in_call = true;
 		delete g_res; delete g_timer; delete g_aux_timer; delete g_usock; delete g_upeer;
-		delete g_cli; delete g_srv; delete g_acc; delete g_peer_accepted;
+		delete g_cli; delete g_srv; delete g_srv2; delete g_acc; delete g_peer_accepted;
 		g_in_call = false;
 		g_res = nullptr; g_timer = nullptr; g_usock = nullptr; g_cli = nullptr; g_srv = nullptr; g_acc = nullptr;
 		if (!threw) s.run();
